@@ -239,7 +239,8 @@ def _execute(plan):
             end = 'too-deep-for-reference'
         except Exception as e:
             end = 'exc:' + type(e).__name__
-        g.close()
+        if hasattr(g, 'close'):
+            g.close()
         del g
         ref['ans'], ref['end'] = ans, end
         return ans[:n]
@@ -428,7 +429,8 @@ def _execute(plan):
                     break
         except Exception as e:
             n = 'exc:' + type(e).__name__
-        g.close()
+        if hasattr(g, 'close'):
+            g.close()
         log.ev('intact', off, n)
         log.count('plain_enumeration_compared_after_bounded_call')
         if n != len(ref['ans']):
